@@ -213,7 +213,15 @@ def hand_list(rng, st0, nbl_guess):
     bad = None
     if rng.random() < 0.75:
         k = rng.choice(st.keys)
-        bad = rng.choice([
+        withinfos = [q for q in st.keys if st.o[q]["infos"]]
+        if withinfos and rng.random() < 0.35:
+            # existing info name, wrong old value
+            k = rng.choice(withinfos)
+            nm = rng.choice(st.o[k]["infos"])[0]
+            wrong = [["a", k[0], k[1], "info", nm, hx("WRONG-OLD"), hx("b")]]
+        else:
+            wrong = []
+        bad = rng.choice(wrong or [
             ["a", k[0], k[1], "info", hx("nope"), hx("a"), hx("b")],
             ["a", k[0], k[1], "name", "-", hx("not-the-name"), hx("z")],
             ["a", k[0], 9999, "name", "-", hx("a"), hx("z")],
